@@ -266,7 +266,7 @@ func c05r3(r *R) {
 	r.check(len(miss) == 0 && len(producible) >= 3, "pacProxy#producible-schemes⊆handled", pp.Pos(), "PAC can produce "+strings.Join(producible, ",")+"; all handled by CONNECT dispatch and by net/http as such", "PAC results can still yield proxy scheme(s) "+strings.Join(miss, ",")+": the CONNECT path fails them but net/http's Transport silently uses such a URL as a plain HTTP proxy and delivers the request there")
 	// static flag: validateProxyURL's list
 	for _, fn := range r.modFuncs() {
-		if fn.Name() != "validateProxyURL" {
+		if refName(fn) != "validateProxyURL" {
 			continue
 		}
 		var schemes []string
